@@ -201,6 +201,7 @@ func checkC20(c *Ctx, r *Report) {
 	}
 	ruleSiteAfterOK(c, r, "C20.a", gcm, "cmd.getFullMetadata", load, -1, "source analysis (pipeline construction, package loading) starts only after LoadGleeceConfig returned err == nil")
 	checkCommandExitStatus(c, r, "C20.a")
+	checkConfigDecodedIntoZero(c, r, "C20.a")
 	ruleWhoCalls(c, r, "C20.a", func(n string) bool { return n == "core/pipeline.NewGleecePipeline" }, "pipeline.NewGleecePipeline",
 		[]string{"cmd.getFullMetadata", "cmd.getPipeline"}, 1, "within the command layer the pipeline is only built behind the configuration gate")
 	ruleSiteAfterOK(c, r, "C20.a", "cmd.getPipeline", "core/pipeline.NewGleecePipeline", "cmd.loadGleeceConfig", -1, "dump command: the pipeline is built only after the configuration loaded")
@@ -1307,4 +1308,50 @@ func calleeDesc(c *ssa.Call) string {
 		return n
 	}
 	return "the function value it was given"
+}
+
+// checkConfigDecodedIntoZero: the configuration file is decoded into a zero GleeceConfig. The
+// `required` constraints are checked on the decoded value: a destination that already holds
+// values makes an omitted required key look present.
+func checkConfigDecodedIntoZero(c *Ctx, r *Report, clause string) {
+	w := c.W
+	fi := need(c, r, clause, "cmd.LoadGleeceConfig")
+	if fi == nil {
+		return
+	}
+	viol := ""
+	var sites []string
+	n := 0
+	for _, cl := range callsIn(fi.SSA, true, func(n string) bool {
+		return n == "github.com/titanous/json5.Unmarshal" || n == "encoding/json.Unmarshal"
+	}) {
+		n++
+		sites = append(sites, w.pos(cl.Pos()))
+		args := cl.Common().Args
+		if len(args) != 2 {
+			continue
+		}
+		dst := args[1]
+		if mi, ok := dst.(*ssa.MakeInterface); ok {
+			dst = mi.X
+		}
+		al, ok := dst.(*ssa.Alloc)
+		if !ok {
+			viol = fmt.Sprintf("%s: the configuration is decoded into something else than a fresh local GleeceConfig", w.pos(cl.Pos()))
+			continue
+		}
+		for _, sv := range storedInto(al, 0) {
+			if k, isK := sv.(*ssa.Const); isK && (k.Value == nil || isZeroConst(k)) {
+				continue
+			}
+			viol = fmt.Sprintf("%s: the GleeceConfig the file is decoded into is pre-populated (%s is stored into it): a required key that the file omits keeps that value and passes validation, so an incomplete configuration is accepted and honoured with values the user never wrote", w.pos(cl.Pos()), sv)
+		}
+	}
+	if n != 1 {
+		viol = fmt.Sprintf("expected one Unmarshal of the configuration in LoadGleeceConfig, found %d", n)
+	}
+	if len(sites) == 0 {
+		sites = []string{w.pos(fi.Decl.Pos())}
+	}
+	r.add(clause, "guardedby", "cmd.LoadGleeceConfig:decoded-into-zero-value", "the configuration file is decoded into a zero GleeceConfig, so `required` means: written in the file", []string{fi.Key}, sites, viol)
 }
